@@ -63,7 +63,7 @@ def immutability(stats, m, sub="skeleton"):
     walk_objects(e, m, pairs, set())
     snap = [(o, M.canon(sm), repr(o)) for o, sm in pairs]
     returned = []
-    P = lib.Point(x=2, y=3)
+    P = lib.Point(x=2.0, y=3.0)      # floats: an int coordinate under a merged power tower would make CPython build a gigantic exact integer
 
     def keep(out):
         if out.kind == lib.EXPR:
